@@ -1,9 +1,9 @@
 chk('C03',
     'Bounded symbolic model checking of the real code. K cells: fixup_one_index / fixup_slice_indices / clip_src_loc / _swizzle_getput_params / validate_put_arglike '
     'agree with Python list semantics for ALL integers (path tree exhausted, no bound on the ints). P cells: put_slice, put, insert, view __setitem__/__delitem__, '
-    'sub-view insert/append/extend/prepend/prextend/replace/remove and element replace/remove on 29 carrier containers with every index/bound a symbolic integer over Z; '
+    'sub-view insert/append/extend/prepend/prextend/replace/remove and element replace/remove on 47 carrier containers (incl. the REAL args / keywords fields of calls whose source interleaves them) with every index/bound a symbolic integer over Z; '
     'at each leaf CPython re-parses the result and the container must equal the independently rendered old[:s]+new+old[e:], the rest of the tree unchanged, refusals only when that rendering is invalid Python.',
-    'Bounds: carriers and new-code snippets listed in evidence; containers of length <= 4; single edit (histories are C01). Outside: other programs, longer containers, other element kinds.',
+    'Bounds: carriers and new-code snippets listed in evidence; containers of length <= 5; single edit (histories are C01). Refusals that pfst documents ("try the _args field") are accepted where the carrier says so. One defect fixed (3b501d6). Outside: other programs, longer containers, other element kinds.',
     'symbolic execution (CrossHair+z3) of real index/slice kernels and public edit entry points; path-tree exhaustion over all integers; CPython parse + list semantics as oracle',
     'DESIGN.md section 4 C03')
 
@@ -11,21 +11,22 @@ chk('C01',
     'Bounded symbolic model checking of the real code. K1: the text splice (_put_src/_params_offset) equals an independent splice and UTF-8 byte arithmetic for symbolic code points and all valid coordinates. '
     'T1: _offset on symbolically re-laid-out trees (every column a free integer, order kept) for every tail/head/exclude/self_ setting equals the behaviour its docstring defines. '
     'T2: "re-lettering": for EVERY Unicode scalar >= U+0080 at the marked positions of a carrier, an edit script yields exactly the re-lettering of the CPython-validated marker run (text + every position). '
-    'P1/P2: public edits and 2-edit histories on 29 carriers with all indices symbolic over Z; at each leaf CPython re-parses the source and the dump incl. every lineno/col_offset must equal the live tree.',
-    'Bounds: listed carriers/templates/scripts, containers <= 4 elements, histories of <= 2 edits, norm=True. Outside: other programs, longer histories, ASCII substitutions in the re-lettering cells.',
+    'P1/P2: public edits and 2-edit histories on 47 carriers with all indices symbolic over Z; at each leaf CPython re-parses the source and the dump incl. every lineno/col_offset must equal the live tree. '
+    'P3: attribute assignment of every primitive field (Constant.value/kind, identifiers, ImportFrom.level) on tight layouts where the new text touches its neighbours.',
+    'Bounds: listed carriers/templates/scripts, containers <= 5 elements, histories of <= 2 edits, norm=True. Two defects fixed (ccf7126, 097fd0c); Ellipsis written as a Name listed as known finding (repair blocked by a test). Outside: other programs, longer histories, ASCII substitutions in the re-lettering cells, constants without a literal form.',
     'symbolic execution (CrossHair+z3) of splice/offset kernels and edit entry points; symbolic column re-layout and Unicode re-lettering templates; CPython re-parse as leaf oracle',
     'DESIGN.md section 4 C01')
 chk('C11',
     'T1: the two-phase offset exactly as put_src(action="offset") issues it, on 13 tree templates whose every column is a free integer (order kept): for every spot strictly inside any node and inside no child, '
     'every splice size (lines and bytes), nodes before do not move, nodes after move by exactly the delta, containing nodes grow. Path trees exhausted: holds for all column layouts of each line structure.',
-    'Bounds: 13 template line structures (incl. decorators, calls with interleaved keywords, multi-line lists, lambda, dict, comparison, with, comprehension, subscript). Outside: other structures; byte/char mapping is C01-K1.',
+    'P1: put_src(action=offset) through the public entry on every tokenize gap of 7 carriers (incl. f-string fields, debug fields, non-ASCII): source == requested splice and tree == CPython parse. One defect fixed (089b8c8). Bounds: 15 template line structures (incl. decorators, calls with interleaved keywords, multi-line lists, lambda, dict, comparison, with, comprehension, subscript). Outside: other structures; byte/char mapping is C01-K1.',
     'symbolic execution of fst_core._offset on symbolic re-layouts of parsed templates; z3 decides every position comparison; reference = position map a trivia splice induces',
     'DESIGN.md section 4 C11')
 chk('C12',
     'K1: one inductive step of the modification registry from an arbitrary valid pre-state (unbounded in-progress count): every exit path (return, raise at any nesting level, refused nested modification, manual enter/success/fail) restores it exactly. '
-    'K2: validate_put_arglike refuses exactly the splices that violate call-argument ordering. P1: nine kinds of invalid request on 29 carriers + arguments carriers with all bounds symbolic over Z: '
+    'K2: validate_put_arglike refuses exactly the splices that violate call-argument ordering. P1: ten kinds of invalid request on 47 carriers + arguments carriers with all bounds symbolic over Z, cuts with an impossible args_as conversion, circular puts (the tree's own root as code): '
     'when the call raises, source, full attribute dump, links and registry equal the pre-state; a following valid edit with symbolic index succeeds and the CPython re-parse equals the tree.',
-    'Bounds: listed carriers and invalid-request table; pep8space values -3..5. Outside: faults injected at arbitrary internal points (not required by the property).',
+    'Bounds: listed carriers and invalid-request table; pep8space values -3..5. Two defects fixed (f43f084, 62a23c1). Outside: faults injected at arbitrary internal points (not required by the property).',
     'symbolic execution of _Modifying and the failing edit paths with symbolic indices; pre/post state equality; CPython re-parse after the follow-up edit',
     'DESIGN.md section 4 C12')
 
@@ -48,22 +49,24 @@ chk('C04',
 chk('C06',
     'K1: bistr c2b/b2c/lenbytes == UTF-8 prefix sums for strings of <= 3 ARBITRARY code points incl. the cached lookup path. K2: next_frag / prev_frag == an independent character-class scanner for lines of <= 4 arbitrary code points, all bounds, comment/lcont flags. '
     'T1: for EVERY Unicode scalar >= U+0080 at the marked positions of 6 carriers, loc/bloc/pars/byte coordinates/text-at-loc of every node are the re-lettering of marker answers which are themselves checked against CPython positions and ast.get_source_segment. '
-    'T2: find_contains_loc / find_in_loc with the query rectangle symbolic vs. a brute-force scan over ast.walk with the documented tie-breaks.',
+    'T2: find_contains_loc / find_in_loc with the query rectangle symbolic vs. a brute-force scan over ast.walk with the documented tie-breaks. '
+    'P3: pars(shared=None|False|True) of every expression/pattern node asked in all 6 orders == a fresh tree asked that variant first; enclosing count == tokenize count of balanced pairs around the node.',
     'Bounds: string/line lengths above; carriers listed. One defect fixed (exact_top), decorators invisible to the by-location search listed as known findings.',
     'symbolic execution of byte/char maps and scanners over arbitrary code points; Unicode re-lettering templates; brute-force location search as reference',
     'DESIGN.md section 4 C06')
 chk('C14',
     'T1: the position merges in syntax_ordered_children (Call, ClassDef) return a sorted permutation for EVERY assignment of (line in 1..3, column unbounded) to <= 3 starred positionals and <= 3 keywords (+ plain positionals). '
     'P1: on a carrier set covering every AST leaf class of Python 3.12, walk(all/loc/False, back) visits exactly ast.walk once, parents first, siblings in text order; back reverses siblings only; leave/both bracketing; '
-    'step_fwd reproduces walk; next/prev/next_child/prev_child agree with walk(recurse=False) and are mutually inverse; child_path/child_from_path invert each other — for every start node.',
-    'Bounds: merge sizes above; 4 carrier programs (finite choice variables enumerated by the solver for P1).',
+    'step_fwd reproduces walk; next/prev/next_child/prev_child agree with walk(recurse=False) and are mutually inverse; child_path/child_from_path invert each other — for every start node; '
+    'walks started at EVERY node in enter/leave/both mode under type filters: filtering commutes with walking, leave and enter yield the same set, both is bracketed.',
+    'Bounds: merge sizes above; 4 carrier programs (finite choice variables enumerated by the solver for P1). One defect fixed (bd26183).',
     'symbolic execution of the merge code over symbolic positions; cross-API agreement with ast.walk and source positions as reference',
     'DESIGN.md section 4 C14')
 chk('C17',
     'K1: the backtracking list matcher through MGlobal(...).match(ast.Global(...)): target = 0-4 SYMBOLIC letters, every quantifier min/max SYMBOLIC integers (None = unbounded), greedy/lazy per item, sub-list quantifiers: '
-    'accept/reject == regular-expression semantics, captured counts == first solution in textbook backtracking order, second call identical. K1b: bare-class MQSTAR/MQPLUS/MQOPT(+NG) == .* .+ .? . '
-    'K2: leaf matchers == equality incl. int/bool/str distinctions. P1: search(p) == [n for n in walk if match(p)] for 6x6 patterns under 10 combinator wrappers, on the formatted tree, a re-laid-out tree and the pure AST.',
-    'Bounds: targets <= 4, <= 2 quantified items, listed skeletons/wrappers. Two defects fixed (sub-list backtracking step, MNOT pre-filter).',
+    'accept/reject == regular-expression semantics, captured counts == first solution in textbook backtracking order, second call identical. K1b: bare-class MQSTAR/MQPLUS/MQOPT(+NG) == .* .+ .? . K1s: untagged quantifiers carrying STATIC tags, inner tags must come from the last kept repetition. '
+    'K2: leaf matchers == equality incl. int/bool/str distinctions. P1: search(p) == [n for n in walk if match(p)] for 8x8 patterns (incl. context-instance and pure-AST patterns) under 10 combinator wrappers, on the formatted tree, a re-laid-out tree and the pure AST. P2: pattern objects with shared sub-patterns reused in every order == fresh patterns.',
+    'Bounds: targets <= 4, <= 2 quantified items, listed skeletons/wrappers. Four defects fixed (sub-list backtracking step, MNOT pre-filter, context-instance pre-filter, duplicated static tags). Outside: quantifiers nested inside sub-list quantifiers.',
     'symbolic execution of the quantifier engine with symbolic counts and symbolic target letters; reference = 30-line backtracking regex semantics',
     'DESIGN.md section 4 C17')
 chk('C20',
@@ -98,9 +101,9 @@ chk('C08',
     'symbolic execution of the quoting kernel and comment accessor over symbolic characters; round trips with symbolic indices judged by CPython',
     'DESIGN.md section 4 C08')
 chk('C09',
-    'P1: every expression slot of 8 parent programs (all operators incl. associativity sides, call/subscript/attribute bases, comprehension parts, lambda/conditional parts, starred/keyword values, await/yield, statement slots, patterns, '
-    'multi-line and parenthesised layouts) x 49 replacement snippets of every expression kind (one-line, multi-line, pre-parenthesised): replace() must give source that CPython parses to the parent with exactly that replacement (reference: same substitution on the pure AST); '
-    'refusal only if the substituted AST does not survive unparse->parse. ~9,000 (slot, snippet) pairs, solver-enumerated finite choice. T1: replace scripts under Unicode re-lettering (byte vs char position of the new node).',
+    'P1: every expression slot of 10 parent programs (all operators incl. associativity sides, call/subscript/attribute bases, comprehension parts, lambda/conditional parts, starred/keyword values, await/yield, statement slots, patterns, '
+    'multi-line and parenthesised layouts) x 54 replacement snippets of every expression kind (one-line, multi-line, pre-parenthesised, with comments ending in a backslash): replace() must give source that CPython parses to the parent with exactly that replacement (reference: same substitution on the pure AST); '
+    'refusal only if the substituted AST does not survive unparse->parse. ~11,000 (slot, snippet) pairs, solver-enumerated finite choice. One defect fixed (6ed5cd7). T1: replace scripts under Unicode re-lettering (byte vs char position of the new node).',
     'The precedence decision itself is table look-up over finite types: no integer/character variable exists for a solver to quantify, so the judge is CPython on every pair (stated). Outside: parents/snippets not in the tables; pars=False.',
     'finite-choice exploration through the symbolic driver with CPython parse of the pure-AST substitution as oracle; Unicode re-lettering for positions',
     'DESIGN.md section 4 C09')
